@@ -758,6 +758,10 @@ def warm():
     if _warmed:
         return
     _warmed.append(1)
+    from . import storesim
+
+    # histories with ten or more commits read several pack indices: their order must not depend on addresses
+    storesim.install_pins()
     import bz2  # noqa: F401
     import gzip  # noqa: F401
     import lzma  # noqa: F401
